@@ -30,3 +30,17 @@ Fixpoint assoc_lookup (tbl : list (string * lookup_res)) (id : string) : lookup_
 (* one value: is its underlying type an interface, and what LookupFieldOrMethod returned per method id *)
 Definition impl_model (ids : list string) (v : bool * list lookup_res) (iface : gtype) : bool :=
   implements_x (fst v) (assoc_lookup (combine ids (snd v))) (iface_methods iface).
+
+(* Rows may arrive packed, four cells per hexadecimal digit (first cell = most significant bit; the last digit is padded with
+   zeros, which `combine` drops): a Coq string literal costs its length to read. *)
+Definition hex_bits (c : ascii) : string :=
+  if Ascii.eqb c "0" then "0000" else if Ascii.eqb c "1" then "0001" else if Ascii.eqb c "2" then "0010" else
+  if Ascii.eqb c "3" then "0011" else if Ascii.eqb c "4" then "0100" else if Ascii.eqb c "5" then "0101" else
+  if Ascii.eqb c "6" then "0110" else if Ascii.eqb c "7" then "0111" else if Ascii.eqb c "8" then "1000" else
+  if Ascii.eqb c "9" then "1001" else if Ascii.eqb c "a" then "1010" else if Ascii.eqb c "b" then "1011" else
+  if Ascii.eqb c "c" then "1100" else if Ascii.eqb c "d" then "1101" else if Ascii.eqb c "e" then "1110" else "1111".
+Fixpoint unhex (s : string) : string :=
+  match s with EmptyString => EmptyString | String c r => hex_bits c ++ unhex r end.
+
+Example unhex_example : unhex "a05f" = "1010000001011111".
+Proof. reflexivity. Qed.
